@@ -17,6 +17,7 @@ CLAIMED = ["C01", "C02", "C03", "C04", "C05", "C06", "C07", "C08", "C09", "C10",
 
 
 def run_one(pid, tier, repo, write=True, out=sys.stdout):
+    chk = None
     try:
         try:
             mod = importlib.import_module(f"renostat.rules.{pid}")
@@ -37,8 +38,10 @@ def run_one(pid, tier, repo, write=True, out=sys.stdout):
                 return st
         return status
     except AnalysisError as e:
-        print(f"ANALYSIS-ERROR property={pid} {e}", file=out)
-        return 2
+        # rules that ran before the analysis stopped keep their verdicts: a violation found is reported (exit 1), the rest of the analysis is missing (the line below says so)
+        n = report.partial(chk, out=out) if chk is not None else 0
+        print(f"ANALYSIS-ERROR property={pid} {e}" + (f"  ({n} violation(s) found before the analysis stopped)" if n else ""), file=out)
+        return 1 if n else 2
     except Exception:
         traceback.print_exc()
         print(f"ANALYSIS-ERROR property={pid} internal error in checker (traceback above)", file=out)
